@@ -171,6 +171,7 @@ func runC05(c *Ctx, r *Run) {
 
 	// ---- PANIC-3
 	found := map[string]string{}
+	foundFn := map[string]*ssa.Function{} // the function holding the panic (a closure counts for itself: it may be a pool task)
 	for _, p := range c.LibPkgs() {
 		if c.Rel(p.Types) == "internal/test" {
 			continue
@@ -187,6 +188,9 @@ func runC05(c *Ctx, r *Run) {
 					root = root.Parent()
 				}
 				found[c.FuncName(root)] = c.Pos(pn.Pos())
+			if _, has := foundFn[c.FuncName(root)]; !has || uncontainedFirst(fn, foundFn[c.FuncName(root)]) {
+				foundFn[c.FuncName(root)] = fn
+			}
 			})
 		}
 	}
@@ -240,8 +244,72 @@ func runC05(c *Ctx, r *Run) {
 		}
 		return via, via != ""
 	}
+	// a site outside the table is decided by where it can run: only panics outside Accept's recover (PANIC-1) take the
+	// process down - on a pool worker (anything the worker entry reaches, i.e. every task closure), or in a decoder /
+	// header filter the application calls directly with foreign bytes. Reachability over the VTA call graph.
+	uncontained := map[*ssa.Function]string{}
+	{
+		var roots []*ssa.Function
+		why := map[*ssa.Function]string{}
+		for _, p := range c.LibPkgs() {
+			for _, fn := range funcsOfPkg(c, c.SSA[p.Types]) {
+				allInstrs(fn, func(in ssa.Instruction) {
+					if g, isGo := in.(*ssa.Go); isGo {
+						if cal := g.Call.StaticCallee(); cal != nil {
+							roots = append(roots, cal)
+							why[cal] = "goroutine started at " + c.Pos(g.Pos())
+						} else if mc, isMC := g.Call.Value.(*ssa.MakeClosure); isMC {
+							roots = append(roots, mc.Fn.(*ssa.Function))
+							why[mc.Fn.(*ssa.Function)] = "goroutine started at " + c.Pos(g.Pos())
+						}
+					}
+				})
+				if fn.Parent() == nil && fn.Signature.Recv() != nil {
+					switch fn.Name() {
+					case "UnmarshalBinary", "UnmarshalCBOR", "UnmarshalJSON", "UnmarshalText", "CanAccept":
+						roots = append(roots, fn)
+						why[fn] = "entry point " + c.FuncName(fn) + " (called by the application with foreign bytes)"
+					}
+				}
+			}
+		}
+		cg := c.CG()
+		var work []*ssa.Function
+		for _, rt := range roots {
+			if _, seen := uncontained[rt]; !seen {
+				uncontained[rt] = why[rt]
+				work = append(work, rt)
+			}
+		}
+		for len(work) > 0 {
+			f := work[len(work)-1]
+			work = work[:len(work)-1]
+			n := cg.Nodes[f]
+			if n == nil {
+				continue
+			}
+			for _, e := range n.Out {
+				if g := e.Callee.Func; g != nil {
+					if _, seen := uncontained[g]; !seen {
+						uncontained[g] = uncontained[f]
+						work = append(work, g)
+					}
+				}
+			}
+		}
+	}
 	for _, n := range names {
 		reason, ok := tabledVia(n, 0)
+		if !ok {
+			if fn := foundFn[n]; fn != nil {
+				if from, un := uncontained[fn]; !un {
+					ok, reason = true, "not in the table, but reachable neither from a pool worker nor from a decoder/filter entry point: it can only fire under Accept's recover (PANIC-1) or in a local API call"
+				} else {
+					r.Check("PANIC-3", n+"|explicit-panic", found[n], false, "", "new explicit panic site in "+n+": not in the reviewed table and reachable outside Accept's recover ("+from+"): is it reachable with peer-controlled data?")
+					continue
+				}
+			}
+		}
 		r.Check("PANIC-3", n+"|explicit-panic", found[n], ok, "explicit panic is tabled: "+reason, "new explicit panic site in "+n+": not in the reviewed table (is it reachable with peer-controlled data? on which goroutine?)")
 	}
 
@@ -887,3 +955,7 @@ func wrappingArithmetic(cond, untrusted ssa.Value) string {
 	walk(cond, 0)
 	return found
 }
+
+// uncontainedFirst prefers a closure over its parent as the representative of a panic site (closures are the task
+// functions handed to the pool).
+func uncontainedFirst(a, b *ssa.Function) bool { return a.Parent() != nil && b.Parent() == nil }
